@@ -1,5 +1,5 @@
 (* C02 - CTAP2 response encoding carries every member under its specified key, exactly. *)
-From Ctap Require Import Base Schema Wire Typed Procs Inst Tables ProcTables Finite Canonical WireP SerP FramingP.
+From Ctap Require Import Base Schema Wire Typed Procs Inst Tables ProcTables Finite Canonical WireP SerP FramingP ObResponseSide ObRespTables.
 Local Open Scope string_scope.
 Local Open Scope Z_scope.
 
